@@ -34,13 +34,12 @@ Definition spec_in_bytes (items : list bytes) (x : option bytes) : bool :=
   match x with None => false | Some v => existsb (fun i => bytes_eqb i v) items end.
 
 (* Well-formedness of what the parser can produce: a CIDR literal has a prefix
-   length within the family's width, an address within the family's range and
-   no host bit set (`IpCidr::from_str` rejects anything else; C06). *)
+   length within the family's width and no host bit set (`IpCidr::from_str` rejects anything else; C06). *)
 Definition ip_item_wf (it : ip_item) : Prop :=
   match it with
   | IpRange4 _ _ | IpRange6 _ _ => True
-  | IpCidr4 a n => 0 <= n <= 32 /\ 0 <= a < 2 ^ 32 /\ a mod 2 ^ (32 - n) = 0
-  | IpCidr6 a n => 0 <= n <= 128 /\ 0 <= a < 2 ^ 128 /\ a mod 2 ^ (128 - n) = 0
+  | IpCidr4 a n => 0 <= n <= 32 /\ a mod 2 ^ (32 - n) = 0
+  | IpCidr6 a n => 0 <= n <= 128 /\ a mod 2 ^ (128 - n) = 0
   end.
 
 Definition ip_wf (x : ip) : Prop :=
